@@ -358,6 +358,47 @@ pub fn spec(id: &str) -> Option<Spec> {
             worker_timeout_s: |t| t.pick(1800, 6 * 3600),
             rayon_threads: 16,
         },
+        "C01" => Spec {
+            id: "C01",
+            level: "exploration",
+            rule: "Seeded well-typed, ownership-correct programs of a Cairo subset (1-5 functions in a call DAG, structs \
+                   and enums with derived Copy/Drop/Serde/PartialEq, Option, tuples, arrays with append/pop_front/at/len, \
+                   ref and snapshot array parameters, checked + - * / % & | ^ on all integer types, felt252 arithmetic, \
+                   comparisons, && || !, if / match on enums, options and integer literals, blocks, while/for/loop with \
+                   break, early return, assert, into / try_into().unwrap(), derived == and Serde serialization) are \
+                   compiled by the real pipeline under 3 configurations (default, optimizations disabled, one random \
+                   lattice point) and run on 8 (thorough 25) argument vectors; the decoded result - value by Sierra \
+                   type, or exact panic data - is compared with an independent big-integer interpreter of the \
+                   generator's AST. Non-trivial = distinct (program, argument vector, configuration) whose run has >= \
+                   30 body steps.",
+            floor: |t| t.pick(1500, 30_000),
+            shards: |_| 1,
+            crash_is_violation: false,
+            assumptions: &[
+                "the reference interpreter follows the language reference and the panic strings documented in the corelib ('<ty>_add Overflow', 'Division by 0', 'Index out of bounds', 'Option::unwrap failed.', ...)",
+                "programs the front end rejects are generator disagreements (inconclusive), never violations",
+            ],
+            worker_timeout_s: |t| t.pick(1800, 6 * 3600),
+            rayon_threads: 16,
+        },
+        "C08" => Spec {
+            id: "C08",
+            level: "exploration",
+            rule: "(a) Every generated program of C01's generator that has no error diagnostics must produce Sierra, \
+                   pass ProgramRegistry + metadata + Sierra->CASM under EVERY configuration of the lattice (quick 7, \
+                   thorough 20) without error or panic, and hook H2 must see the lowering validator accept the IR \
+                   after every optimization phase. (b) Each program is re-submitted with one injected ownership \
+                   violation - a use of an array right after it was moved (at every move site the generator recorded), \
+                   a value of a struct without Drop that goes out of scope, a double move - and must then have an \
+                   error diagnostic. Non-trivial = distinct error-free program compiled under all configurations + \
+                   distinct injected programs.",
+            floor: |t| t.pick(150, 2500),
+            shards: |_| 1,
+            crash_is_violation: false,
+            assumptions: &["programs the front end rejects before injection are generator disagreements (inconclusive)"],
+            worker_timeout_s: |t| t.pick(1800, 6 * 3600),
+            rayon_threads: 16,
+        },
         _ => return None,
     })
 }
@@ -376,6 +417,7 @@ pub fn worker(id: &str, ctx: &mut Ctx) {
         "C10" => crate::frontend::c10_worker(ctx),
         "C02" | "C04" | "C17" => crate::execchecks::exec_worker(ctx, id),
         "C14" | "C15" => crate::sierra_mut::sierra_worker(ctx, id),
+        "C01" | "C08" => crate::gencheck::gen_worker(ctx, id),
         "C03" => crate::hintfault::c03_worker(ctx),
         "C05" => crate::metamorph::c05_worker(ctx),
         "C06" => crate::opmatrix::c06_worker(ctx),
@@ -398,6 +440,7 @@ pub fn replay(id: &str, case: &Value) -> Result<Option<String>, String> {
         "C10" => crate::frontend::c10_replay(case),
         "C02" | "C04" | "C17" => crate::execchecks::exec_replay(id, case),
         "C14" | "C15" => crate::sierra_mut::sierra_replay(id, case),
+        "C01" | "C08" => crate::gencheck::gen_replay(id, case),
         "C03" => crate::hintfault::c03_replay(case),
         "C05" => crate::metamorph::c05_replay(case),
         "C06" => crate::opmatrix::c06_replay(case),
